@@ -14,6 +14,7 @@ import (
 	gatewayv1alpha2 "sigs.k8s.io/gateway-api/apis/v1alpha2"
 
 	ngfAPI "github.com/nginx/nginx-gateway-fabric/apis/v1alpha1"
+	ngfAPIv2 "github.com/nginx/nginx-gateway-fabric/apis/v1alpha2"
 	p "github.com/nginx/nginx-gateway-fabric/verifharness/pipeline"
 	"github.com/nginx/nginx-gateway-fabric/verifharness/scen"
 )
@@ -135,6 +136,94 @@ func directed() map[string]*History {
 	usp.Spec.TargetRefs = []gatewayv1alpha2.LocalPolicyTargetReference{{Kind: "Service", Name: "svc0"}}
 	usp.Spec.ZoneSize = ptr(ngfAPI.Size("1m"))
 	add("upstream-policy-deleted", base(usp), del(usp), cut)
+	// --- Services that expose one port number for two protocols (53/TCP + 53/UDP): port-set edits that keep the count
+	dns := p.Service("default", "dns", 53)
+	dns.Spec.Ports = []apiv1.ServicePort{
+		{Name: "dns-tcp", Protocol: apiv1.ProtocolTCP, Port: 53, TargetPort: intstr.FromInt32(8053)},
+		{Name: "dns-udp", Protocol: apiv1.ProtocolUDP, Port: 53, TargetPort: intstr.FromInt32(8053)},
+	}
+	routeDNS := p.HTTPRoute("default", "hr-dns", 8, []gatewayv1.ParentReference{p.ParentRef("", "gw0", "")}, []string{"dns.example.com"},
+		p.HTTPRule([]gatewayv1.HTTPRouteMatch{p.PathMatch("PathPrefix", "/")}, p.Backend{Ref: "dns", Port: 9153, Weight: -1}))
+	esDNS := p.EndpointSlice("default", "dns", "s0", []int32{53}, "10.0.1.5")
+	esDNS.Ports = []discoveryV1.EndpointPort{
+		{Name: ptr("dns-tcp"), Port: ptr(int32(8053)), Protocol: ptr(apiv1.ProtocolTCP)},
+		{Name: ptr("metrics"), Port: ptr(int32(9153)), Protocol: ptr(apiv1.ProtocolTCP)},
+	}
+	replaceDup := func(o client.Object) {
+		o.(*apiv1.Service).Spec.Ports[1] = apiv1.ServicePort{Name: "metrics", Protocol: apiv1.ProtocolTCP, Port: 9153, TargetPort: intstr.FromInt32(9153)}
+	}
+	// a duplicate entry is replaced by a new port the route is waiting for (count unchanged)
+	add("svc-dup-port-replaced-by-new-port", base(dns, routeDNS, esDNS), upd(dns, "svc-replace-dup-port", replaceDup), cut)
+	// … and the mirror: a distinct port is replaced by a duplicate of the remaining one (the route loses its port)
+	dnsNew := dns.DeepCopy()
+	replaceDup(dnsNew)
+	add("svc-port-replaced-by-dup-port", base(dnsNew, routeDNS, esDNS), Op{Op: "u", Key: p.KeyOf(dns), Obj: dns, Label: "svc-make-dup-port"}, cut)
+	// both entries of the duplicate pair change to two different new ports
+	add("svc-dup-ports-both-replaced", base(dns, routeDNS, esDNS), upd(dns, "svc-replace-dup-port", func(o client.Object) {
+		s := o.(*apiv1.Service)
+		s.Spec.Ports[0] = apiv1.ServicePort{Name: "web", Protocol: apiv1.ProtocolTCP, Port: 80, TargetPort: intstr.FromInt32(8080)}
+		replaceDup(o)
+	}), cut)
+	// same port number, the duplicate changes only its targetPort (pair set grows, count unchanged)
+	add("svc-dup-port-targetport-split", base(dns, esDNS,
+		p.HTTPRoute("default", "hr-dns", 8, []gatewayv1.ParentReference{p.ParentRef("", "gw0", "")}, []string{"dns.example.com"},
+			p.HTTPRule([]gatewayv1.HTTPRouteMatch{p.PathMatch("PathPrefix", "/")}, p.Backend{Ref: "dns", Port: 53, Weight: -1}))),
+		upd(dns, "svc-targetport", func(o client.Object) {
+			s := o.(*apiv1.Service)
+			s.Spec.Ports[0], s.Spec.Ports[1] = s.Spec.Ports[1], s.Spec.Ports[0]
+			s.Spec.Ports[0].Name, s.Spec.Ports[0].Protocol, s.Spec.Ports[0].TargetPort = "dns-tcp", apiv1.ProtocolTCP, intstr.FromInt32(9999)
+			s.Spec.Ports[1].Name, s.Spec.Ports[1].Protocol = "dns-udp", apiv1.ProtocolUDP
+		}), cut)
+
+	// --- policies with several targetRefs, upserted after the graph with their targets was built
+	routeB := p.HTTPRoute("default", "hr-b", 9, []gatewayv1.ParentReference{p.ParentRef("", "gw0", "")}, []string{"b.example.com"},
+		p.HTTPRule([]gatewayv1.HTTPRouteMatch{p.PathMatch("PathPrefix", "/b")}, p.Backend{Ref: "svc0", Port: 80, Weight: -1}))
+	obs := func(name string, targets ...string) *ngfAPIv2.ObservabilityPolicy {
+		o := &ngfAPIv2.ObservabilityPolicy{ObjectMeta: p.Meta("default", name, 10)}
+		o.Spec.Tracing = &ngfAPIv2.Tracing{Strategy: ngfAPIv2.TraceStrategyRatio, Ratio: ptr(int32(10))}
+		for _, t := range targets {
+			o.Spec.TargetRefs = append(o.Spec.TargetRefs, gatewayv1alpha2.LocalPolicyTargetReference{
+				Group: "gateway.networking.k8s.io", Kind: "HTTPRoute", Name: gatewayv1.ObjectName(t)})
+		}
+		return o
+	}
+	create := func(o client.Object) Op { return Op{Op: "u", Key: p.KeyOf(o), Obj: o, Label: "create"} }
+	// first target absent, later one present
+	add("policy-multitarget-absent-first", base(routeB), create(obs("obs", "hr-absent", "hr-b")), cut)
+	// mirror: first present, later absent
+	add("policy-multitarget-present-first", base(routeB), create(obs("obs", "hr-b", "hr-absent")), cut)
+	add("policy-multitarget-absent-first-of-three", base(routeB), create(obs("obs", "hr-absent", "hr-absent2", "hr0")), cut)
+	// all targets absent (irrelevant), then a target appears
+	add("policy-multitarget-all-absent-then-route", base(), create(obs("obs", "hr-absent", "hr-b")), cut, create(routeB), cut)
+	// a policy update moves a targetRef: away from the graph, and into it behind an absent one
+	add("policy-targetref-moved-behind-absent", base(routeB, obs("obs", "hr-absent", "hr-absent2")),
+		Op{Op: "u", Key: p.KeyOf(obs("obs")), Obj: obs("obs", "hr-absent", "hr-b"), Label: "obs-targets"}, cut)
+	add("policy-targetref-moved-away", base(routeB, obs("obs", "hr-absent", "hr-b")),
+		Op{Op: "u", Key: p.KeyOf(obs("obs")), Obj: obs("obs", "hr-absent", "hr-absent2"), Label: "obs-targets"}, cut)
+	add("policy-targetrefs-swapped", base(routeB, obs("obs", "hr-b", "hr-absent")),
+		Op{Op: "u", Key: p.KeyOf(obs("obs")), Obj: obs("obs", "hr-absent", "hr-b"), Label: "obs-targets"}, cut)
+	add("policy-multitarget-deleted", base(routeB, obs("obs", "hr-absent", "hr-b")), del(obs("obs")), cut)
+	// UpstreamSettingsPolicy with several Service targets: first unreferenced/absent, later referenced
+	usp2 := func(targets ...string) *ngfAPI.UpstreamSettingsPolicy {
+		u := &ngfAPI.UpstreamSettingsPolicy{ObjectMeta: p.Meta("default", "usp2", 11)}
+		u.Spec.ZoneSize = ptr(ngfAPI.Size("2m"))
+		for _, t := range targets {
+			u.Spec.TargetRefs = append(u.Spec.TargetRefs, gatewayv1alpha2.LocalPolicyTargetReference{Kind: "Service", Name: gatewayv1.ObjectName(t)})
+		}
+		return u
+	}
+	add("upstream-policy-multitarget-absent-first", base(), create(usp2("svc-absent", "svc0")), cut)
+	add("upstream-policy-multitarget-present-first", base(), create(usp2("svc0", "svc-absent")), cut)
+	add("upstream-policy-targetref-moved", base(usp2("svc-absent", "svc-absent2")),
+		Op{Op: "u", Key: p.KeyOf(usp2()), Obj: usp2("svc-absent", "svc0"), Label: "usp-targets"}, cut)
+
+	// an object with a relevance predicate is deleted while nothing references it, the referrer arrives afterwards
+	add("svc-deleted-unreferenced-then-referenced", append(ns(), gc, gw, svc0, es0, sec), del(svc0), cut, create(route), cut)
+	gwNoTLS := p.Gateway("default", "gw0", p.DefaultClass, 2, p.Listener{Name: "http", Port: 80, Protocol: "HTTP", FromNS: "All"})
+	add("secret-deleted-unreferenced-then-referenced", append(ns(), gc, gwNoTLS, route, svc0, es0, sec), del(sec), cut,
+		Op{Op: "u", Key: p.KeyOf(gw), Obj: gw, Label: "gw-add-https-listener"}, cut)
+	add("svc-deleted-and-referenced-in-one-batch", append(ns(), gc, gw, svc0, es0, sec), del(svc0), create(route), cut)
+
 	// §7 row 23: GatewayClass controllerName
 	gcForeign := p.GatewayClass(p.DefaultClass, scen.ForeignController, 1)
 	add("class-created-foreign", append(ns(), gw, route, svc0, es0, sec), Op{Op: "u", Key: p.KeyOf(gcForeign), Obj: gcForeign, Label: "create"}, cut)
